@@ -202,7 +202,7 @@ pub fn run_history(
             last_info = info;
         }
         sc.check(&mut d, &pre, ops.last(), &last_info, &mut out);
-        let node = if want_children && out.is_empty() {
+        let node = if want_children {
             let effective = ops.is_empty() || last_info.effective;
             Some(NodeOut {
                 effective,
@@ -305,6 +305,8 @@ pub struct Limits {
     pub max_nodes: u64,
     pub max_wall_s: f64,
     pub threads: usize,
+    /// signatures (exact or `prefix*`) of recorded findings: reported, but they do not stop expansion
+    pub known_sigs: Vec<String>,
 }
 
 pub fn explore(sc: Arc<dyn Scenario>, limits: &Limits) -> RunResult {
@@ -347,6 +349,7 @@ pub fn explore(sc: Arc<dyn Scenario>, limits: &Limits) -> RunResult {
         let dir = root.join(format!("w{w}"));
         let max_nodes = limits.max_nodes;
         let max_wall = limits.max_wall_s;
+        let known_sigs = limits.known_sigs.clone();
         handles.push(std::thread::spawn(move || loop {
             let item = {
                 let mut st = stack.lock().unwrap();
@@ -380,6 +383,9 @@ pub fn explore(sc: Arc<dyn Scenario>, limits: &Limits) -> RunResult {
                     s.push(short_hist(&ops));
                 }
             }
+            let blocking = viol
+                .iter()
+                .any(|x| !known_sigs.iter().any(|k| crate::evidence::sig_matches(k, &x.sig)));
             if !viol.is_empty() {
                 stats.violating_nodes.fetch_add(1, Ordering::Relaxed);
                 let mut f = found.lock().unwrap();
@@ -391,7 +397,7 @@ pub fn explore(sc: Arc<dyn Scenario>, limits: &Limits) -> RunResult {
                     });
                 }
             }
-            if let Some(node) = node {
+            if let Some(node) = node.filter(|_| !blocking) {
                 states.lock().unwrap().insert(node.state_hash);
                 outcomes.lock().unwrap().insert(node.outcome);
                 if let Some(last) = ops.last() {
